@@ -7,6 +7,7 @@ ids=("$@"); [ ${#ids[@]} -eq 0 ] && ids=( $(ls -d */ | tr -d /) )
 for s in "${ids[@]}"; do
   d=/verif/seeded/$s
   p=$d/patch.diff; [ -f $d/patch_current_tree.diff ] && p=$d/patch_current_tree.diff
+  if python3 -c "import json,sys;sys.exit(0 if 'neutralised_by' in json.load(open('$d/meta.json')) else 1)"; then echo "$s NEUTRALISED (a later fix: commit made this change harmless; see meta.json)"; continue; fi
   checks=$(python3 -c "import json;print(' '.join(json.load(open('$d/meta.json'))['detected_by']))")
   cd /repo || exit 2
   if ! git diff --quiet; then echo "/repo dirty; abort"; exit 2; fi
